@@ -69,13 +69,15 @@ func (raceSlice) Corpus() [][]string {
 	return [][]string{ops}
 }
 
-func (raceSlice) Gen(r *rand.Rand, i int, tier string) ([]string, []string) {
+func (raceSlice) Gen(r *rand.Rand, i int, _ string) ([]string, []string) {
 	var ops, tags []string
 	// one case in three must change VP9 / AV1 parameters (the codec fields the multivariant handler reads:
 	// the muxer generator's H264 units only ever change the PPS, which no handler reads)
 	wantParams := r.Intn(3) == 0
 	for attempt := 0; attempt < 80; attempt++ {
-		ops, tags = muxerSlice{}.Gen(r, i, tier)
+		// always the quick-tier shape (30..150 writes): under the race detector with readers hammering, the
+		// thorough tier's 400..1600-write cases cost minutes each; the thorough tier runs MORE cases instead
+		ops, tags = muxerSlice{}.Gen(r, i, "quick")
 		bad := len(ops) < 6
 		params, codec := false, false
 		for _, t := range tags {
